@@ -1,7 +1,7 @@
 (** C20 — equivalent spellings of a query mean the same thing. *)
 From Coq Require Import List ZArith NArith Bool Lia.
 From AG Require Import Str F64 Value Json Expr Ops Pipeline Filter Grammar Print
-     Roundtrip_proofs FilterRoundtrip_proofs Spelling_proofs QueryRoundtrip Cli Cli_proofs.
+     Roundtrip_proofs FilterRoundtrip_proofs Spelling_proofs QueryRoundtrip PrintSyn SynRoundtrip Cli Cli_proofs.
 From AG Require Generated.
 Import ListNotations.
 Open Scope string_scope.
@@ -17,6 +17,28 @@ Theorem C20_query_spellings_agree : forall (o1 o2 : popts) (fs : list filter) (s
   accepts t1 = accepts t2.
 Proof. exact query_spellings_agree. Qed.
 Print Assumptions C20_query_spellings_agree.
+
+(** ... including the documented keyword synonyms, defaults and clause orders as spelling choices
+    ([sopts]): fields +/only/include/(nothing) and -/except/drop, (nothing)/asc/ascending,
+    desc/dsc/descending, avg/average, pNN/pctNN/percentileNN, bare `limit` for `limit 10`, an omitted
+    `as` where the name is the default one, `from` before or after `as` in parse: whatever is chosen,
+    the query compiles to exactly the filter and stages it was printed from ... *)
+Theorem C20_query_roundtrip_with_synonyms : forall (o : popts) (so : sopts) (fs : list filter) (stages : list stage) (t : str),
+  popts_ok o = true -> forallb wf_filter fs = true ->
+  forallb (wf_stage_syn o so) stages = true -> forallb stage_ok stages = true ->
+  pp_query_syn o so fs stages = Some t ->
+  accepts t = Some (FAnd fs, stages).
+Proof. exact query_roundtrip_syn. Qed.
+Print Assumptions C20_query_roundtrip_with_synonyms.
+
+(** ... hence any two such spellings of one query compile identically *)
+Theorem C20_synonym_spellings_agree : forall (o1 o2 : popts) (so1 so2 : sopts) (fs : list filter) (stages : list stage) (t1 t2 : str),
+  popts_ok o1 = true -> popts_ok o2 = true -> forallb wf_filter fs = true ->
+  forallb (wf_stage_syn o1 so1) stages = true -> forallb (wf_stage_syn o2 so2) stages = true -> forallb stage_ok stages = true ->
+  pp_query_syn o1 so1 fs stages = Some t1 -> pp_query_syn o2 so2 fs stages = Some t2 ->
+  accepts t1 = accepts t2.
+Proof. exact query_synonym_spellings_agree. Qed.
+Print Assumptions C20_synonym_spellings_agree.
 
 (** one stage of any kind, in any spelling, followed by the end of the query or a pipe *)
 Theorem C20_stage_roundtrip : forall (o : popts) (st : stage) (t k : str),
